@@ -482,24 +482,32 @@ def run(res, harness, tier, rng, fns):
             for ln in lines:
                 i1, _, e1, rc1 = run_lines(harness, [ln])
                 if rc1 != 0 or len(i1) != 1:
-                    bad.append((ln, "the C function: sanitizer report or crash\n" + e1[-1500:], None, None))
+                    bad.append((ln, "the C function: sanitizer report or crash\n" + e1[-1500:], None, None, False))
                     break
         for k, (ln, want) in enumerate(cases):
             il = impl[k] if k < len(impl) else None
             ml = model[k] if k < len(model) else None
             if il is not None and il != want:
-                bad.append((ln, "the C function returns %r, the specification of the helper says %r" % (il, want), il, ml))
+                bad.append((ln, "the C function returns %r, the specification of the helper says %r" % (il, want), il, ml, False))
             elif ml != want:
-                bad.append((ln, "the translated function (MiniC) returns %r, the C function %r, the specification %r" % (ml, il, want), il, ml))
-            if len(bad) >= 3:
+                # the C function does what the specification says on this input: only the translated term (or the translator) no longer
+                # corresponds to it - a broken correspondence, not a failing input of the library
+                bad.append((ln, "the translated function (MiniC) returns %r, the C function %r, the specification %r" % (ml, il, want), il, ml, il == want))
+            # (inputs on which only the translated term disagrees are kept to two; the search for an input on which the C function
+            # itself departs from the specification goes on)
+            if sum(1 for b in bad if b[4]) > 2:
+                bad.remove(next(b for b in reversed(bad) if b[4]))
+            if sum(1 for b in bad if not b[4]) >= 3:
                 break
-        for ln, why, il, ml in bad[:2]:
+        # (failing inputs of the C function first)
+        bad.sort(key=lambda b: b[4])
+        for ln, why, il, ml, nofail in bad[:2]:
             if len(res.violations) < 5:
                 p = common.write_replay(res, "leaf_%s_%d" % (fn, len(res.violations) + 1), None,
                                         "string helper %s: %s\ninput line (replay with: check.py %s --replay <this file>):" % (fn, why, res.pid))
                 with open(p, "a") as f:
                     f.write("LEAF %s\n" % ln)
-                res.violations.append((p, "helper %s: %s" % (fn, why.split("\n")[0]), False))
+                res.violations.append((p, "helper %s: %s" % (fn, why.split("\n")[0]), nofail))
 
 
 def replay(res, harness, path):
